@@ -18,6 +18,8 @@ ISOLATE_SHARDS = True        # every shard runs in a forked child of a pristine 
 RULE = ("streams of 1..3 frames from a message set x chunkings {all 2-way, all 3-way (short), boundary-neighbourhood <=4 cuts, "
         "byte-wise, coalesced} x injected None answers, and every truncation offset + EOF; checked after EVERY chunk: replies "
         "sent so far == replies to exactly the frames whose last byte was delivered, store == model after exactly those. "
+        "Two sessions: while one session has delivered its request only up to byte p (every p) and pauses, a second session registers and "
+        "reads and must be served as if the first did not exist; the first then completes as usual. "
         "non-trivial = distinct (stream, chunking) with at least one cut strictly inside a frame")
 BOUNDS = {
     "quick": "server: streams register+X and register+X+Y over 7 message kinds: all 2-way splits, byte-wise, boundary cuts (<=2 of "
@@ -255,8 +257,76 @@ def with_nones(chunks, tier):
             yield c
 
 
+def run_pause(names, p):
+    """Session A has delivered its request(s) only up to byte p and pauses there; session B (another peer) registers and reads meanwhile
+    and must be served as if A did not exist; A's frame then completes as usual.  -> [(kind,msg)], stuck?"""
+    msgs = messages("thorough")
+    frames = [W.register(b"ctx-regi")] + [msgs[n] for n in names]
+    base_replies, base_stores, _ = baseline(frames)
+    bad = []
+    S = sim.Sim(CFG)
+    A = sim.Session(S, ADDR, wait_timeout=20)
+    A.feed(frames[0])
+    stream = b"".join(frames[1:])
+    A.feed(stream[:p])
+    store_now = S.store()
+    B = None
+    try:
+        B = sim.Session(S, ("127.0.0.1", 10010), wait_timeout=20)
+        r = B.feed(W.register(b"ctx-new-"))
+        handle = W.split_frames(b"".join(r))[0]["session"]
+        rr = B.feed(W.send_rr_data(handle, W.read_tag(W.tag_path("a"), 2), b"ctx-prob"))
+        f = W.split_frames(b"".join(rr))
+        if len(f) != 1 or f[0]["status"] != 0:
+            bad.append(("other-session-wrong-reply", "while another session paused after %d of %d bytes of %r: the second session's read "
+                        "was answered %r" % (p, len(stream), names, f)))
+        else:
+            vals = W.dec_read_reply(W.dec_send_data(f[0])["cip"])["values"]
+            if vals != list(dict(store_now)["a"]):
+                bad.append(("other-session-wrong-data", "second session read %r, store holds %r" % (vals, dict(store_now)["a"])))
+    except sim.SessionHang as exc:
+        bad.append(("other-session-blocked-by-partial-frame", "a session that has delivered %d of %d bytes of %r and pauses there blocks "
+                    "another session: %s" % (p, len(stream), names, exc)))
+        return bad, True
+    except Exception as exc:
+        bad.append(("other-session-broken", "second session failed while the first paused after %d bytes of %r: %s: %s"
+                    % (p, names, type(exc).__name__, exc)))
+    if A.alive:
+        A.feed(stream[p:])
+    want = b"".join(r for r in base_replies if r is not None)
+    got = b"".join(A.conn.sent)
+    if got != want:
+        bad.append(("replies-differ-after-pause", "first session paused after %d of %d bytes of %r: replies %s, expected %s"
+                    % (p, len(stream), names, got.hex(), want.hex())))
+    final = [st for r, st in zip(base_replies, base_stores) if r is not None]
+    if final and S.store() != final[-1]:
+        bad.append(("store-differs-after-pause", "store %r, expected %r" % (S.store()[0], final[-1][0])))
+    for sess in (B, A):
+        if sess is not None:
+            try:
+                sess.close()
+            except sim.SessionHang:
+                return bad, True
+    return bad, False
+
+
 def shard(acc, item, tier, seed):
     what = item[0]
+    if what == "pause":
+        _, names = item
+        n = sum(len(messages(tier)[nm]) for nm in names)
+        for p in range(1, n):
+            acc.ev()
+            acc.ntc()
+            acc.outcome("pause")
+            bad, stuck = run_pause(names, p)
+            for k, m in bad:
+                acc.violation(k, {"op": "pause", "names": names, "p": p}, m)
+            if stuck:
+                acc.count("shards_cut_short_after_a_stuck_server_thread")
+                break
+        acc.sample({"op": "pause", "names": names, "p": 30})
+        return
     msgs = messages(tier)
     if what == "server":
         _, names, mode = item
@@ -383,7 +453,13 @@ def run(ctx):
             items.append(("machine", (a,)))
         for a, b in itertools.product(["read", "write2", "list_services", "unregister"], repeat=2):
             items.append(("machine", (a, b)))
+        for a in names:
+            items.append(("pause", (a,)))
     else:
+        for a in names:
+            items.append(("pause", (a,)))
+        for a, b in [("write1", "read"), ("bundle", "write2"), ("read", "unregister")]:
+            items.append(("pause", (a, b)))
         for a in names:
             items.append(("server", (a,), "chunk"))
             items.append(("server", (a,), "trunc"))
@@ -403,7 +479,7 @@ def run(ctx):
 
 def guards(acc, ctx):
     g = []
-    for k in ("2way", "near", "bytewise", "coalesced", "truncate", "machine-2way", "machine-3way"):
+    for k in ("2way", "near", "bytewise", "coalesced", "truncate", "machine-2way", "machine-3way", "pause"):
         if not acc.outcomes.get(k):
             g.append("outcome %s never observed" % k)
     return g
@@ -413,6 +489,8 @@ def replay(case):
     msgs = messages("thorough")
     names = case["names"]
     op = case["op"]
+    if op == "pause":
+        return [m for k, m in run_pause(tuple(names), case["p"])[0]]
     if op == "machine":
         return [m for k, m in run_machine([msgs[n] for n in names], case["chunks"])]
     frames = [W.register(b"ctx-regi")] + [msgs[n] for n in names]
